@@ -424,8 +424,13 @@ def owner(unit, f):
             return ("C04", "C20")
         sn = f.snippet.replace(" ", "")
         return ("C03", "C02") if ("s_bytes0" in sn or "num(a)==0" in sn or "part_ok" in sn) else "C03"
-    if unit == "response_gen" and f.fn == "Response::generate":
-        return "C15"
+    if unit == "response_gen":
+        if f.fn == "Response::generate":
+            return "C15"
+        if f.kind in SAFETY_KINDS:
+            return ("C04", "C05")
+        # the serialiser: status line, framing headers, Content-Length, the parts and what HEAD / OPTIONS get
+        return ("C05", "C03", "C09", "C15", "C02", "C04")
     if unit == "multipart":
         return ("C20", "C04") if f.kind in SAFETY_KINDS else "C16"
     if f.kind == "precondition" and f.snippet.startswith("false@"):
@@ -457,7 +462,9 @@ def owner(unit, f):
             return ("C10", "C05", "C03", "C02", "C09", "C11", "C04")
         if "frame_ok" in sn or "std_headers" in sn or "fixed_headers" in sn:
             return ("C10", "C05", "C04")
-        if "registered(" in sn or "is_bad_request" in sn or "response_bytes" in sn or "delivered_in_full" in sn or "one_response" in sn or "one_bad_request" in sn or "status_code==404" in sn:
+        if "delivered_in_full" in sn or "one_response" in sn:
+            return ("C05", "C04", "C02", "C03")
+        if "registered(" in sn or "is_bad_request" in sn or "response_bytes" in sn or "one_bad_request" in sn or "status_code==404" in sn:
             return ("C05", "C04")
     return None
 
@@ -494,7 +501,7 @@ PROPS = {
                         "Response::parse requires input of at most i32::MAX bytes (its byte counters are i32)"],
     },
     "C02": {
-        "units": ["static", "range_parse", "mime", "app", "controllers", "response_gen"],
+        "units": ["static", "range_parse", "mime", "app", "controllers", "response_gen", "server"],
         "level": "proof",
         "falsifier": ["statics"],
         "case_prefixes": ["c02_"],
@@ -620,7 +627,7 @@ PROPS = {
         ],
     },
     "C04": {
-        "units": ["server", "request_parse", "range_parse", "static", "app", "controllers", "log", "forms", "multipart", "cors", "header_list"],
+        "units": ["server", "request_parse", "range_parse", "static", "app", "controllers", "log", "forms", "multipart", "cors", "header_list", "response_gen"],
         "level": "proof",
         "falsifier": ["e2e"],
         "case_prefixes": ["c04_"],
@@ -672,7 +679,7 @@ PROPS = {
         ],
     },
     "C03": {
-        "units": ["range_parse", "response_gen", "static"],
+        "units": ["range_parse", "response_gen", "static", "server"],
         "level": "proof",
         "falsifier": ["range", "response", "ranges"],
         "case_prefixes": ["range_ok", "accept", "is_416", "panic", "end<len", "generate_response", "c03_"],
